@@ -340,8 +340,10 @@ theorem inc_flag_fresh_per_read (s : S) (t : Array Nat) :
   ⟨rfl, incWalk_fresh t⟩
 
 /-- Walking the Context a parser currently holds once more (`rewalk`; not a closed operation: its argument is the
-    state) returns, for every format but `.inc`, the listing of the parse with fresh junk ids … -/
-theorem rewalk_same_listing (s : S) (f : Fmt) (hf : f ≠ .inc) (t : Array Nat) :
+    Context the parser holds) returns the listing of the parse with fresh junk ids, for EVERY format — also `.inc`:
+    `DefinesParser.walk` resets `filter_empty_lines` when a pass starts (/repo 0f5119c), so the flag the first pass
+    left on the Context is not seen. -/
+theorem rewalk_same_listing (s : S) (f : Fmt) (t : Array Nat) :
     (HistM.step (HistM.step s (.base (.parse f t))).1 (.rewalk f)).2
       = .base (.parsed (stuckAt (walk f t))
           ((ents0 f t).map (Ent.shift (s.g.junkid + bump0 f t) s.g.heap.length))) := by
@@ -353,9 +355,9 @@ theorem rewalk_same_listing (s : S) (f : Fmt) (hf : f ≠ .inc) (t : Array Nat) 
   have hheap : (doParse s.g f t).1.heap[s.g.heap.length]? = some { contents := t } := by
     rw [doParse_heap]; simp
   simp only [hpc, hheap]
-  have hwf : ∀ fl : Bool, walkFl f t fl = (walk f t, fl) := by
+  have hwf : ∀ fl : Bool, (walkFl f t fl).1 = walk f t := by
     intro fl
-    cases f <;> first | rfl | exact absurd rfl hf
+    cases f <;> first | rfl | exact incWalk_fresh t
   simp only [hwf]
   have := assign_shift f t 0 s.g.heap.length (s.g.junkid + bump0 f t) (entriesOf (walk f t)) 0 0
   simp only [Nat.zero_add] at this
@@ -368,17 +370,35 @@ def kindsOf : HistM.Out → List Kind
   | .base (.parsed _ ents) => ents.map (·.entry.kind)
   | _ => []
 
-/-- … but NOT for `.inc`: the filter flag lives on the Context and is left at its last value, so a second walk of
-    the same Context starts with it.  `"#define a\n\n#filter emptyLines\n"`: the blank line is Junk in the first
-    walk, Whitespace in the second.  (No tool walks a Context twice; `compare`, `lint`, `merge_channels`,
-    `serialize` read a file into a new Context each time.) -/
-theorem rewalk_inc_depends_on_flag :
+/-- The filter flag a walk leaves on the Context plays no role for the next walk: `rewalk` returns the same result
+    whatever `filter_empty_lines` of the DefinesParser's Context is. -/
+theorem rewalk_ignores_flag (s : S) (b : Bool) (f : Fmt) :
+    (HistM.step { s with incFlag := b } (.rewalk f)).2 = (HistM.step s (.rewalk f)).2 := by
+  simp only [HistM.step, doRewalk]
+  cases s.g.pctx f with
+  | none => rfl
+  | some addr =>
+    simp only
+    cases s.g.heap[addr]? with
+    | none => rfl
+    | some c =>
+      have hw : (walkFl f c.contents b).1 = (walkFl f c.contents s.incFlag).1 := by cases f <;> rfl
+      simp only [hw]
+
+/-- … evaluated on texts that leave the filter switched ON at their end (the inputs of the repaired defect): the
+    blank line before `#filter emptyLines` is Junk in the parse AND in a second walk of the same Context, and the
+    flag the Context is left with is the same after both. -/
+theorem rewalk_inc_same_as_first_walk :
     kindsOf (HistM.step S.init (.base (.parse .inc (T "#define a\n\n#filter emptyLines\n").toArray))).2
       = [.entity, .junk, .instruction, .whitespace] ∧
     kindsOf (HistM.step (HistM.step S.init (.base (.parse .inc (T "#define a\n\n#filter emptyLines\n").toArray))).1
-        (.rewalk .inc)).2 = [.entity, .whitespace, .instruction, .whitespace] := by
+        (.rewalk .inc)).2 = [.entity, .junk, .instruction, .whitespace] ∧
+    kindsOf (HistM.step S.init (.base (.parse .inc (T "#a b\n\n#filter emptyLines").toArray))).2
+      = kindsOf (HistM.step (HistM.step S.init (.base (.parse .inc (T "#a b\n\n#filter emptyLines").toArray))).1
+        (.rewalk .inc)).2 ∧
+    (HistM.step (HistM.step S.init (.base (.parse .inc (T "#a b\n\n#filter emptyLines").toArray))).1
+        (.rewalk .inc)).1.incFlag = true := by
   decide +kernel
-
 
 /-- Every `readUnicode` / `readFile` / `readContents` REPLACES the per-parse Context: whatever the shared parser of the
     format held before (any text, a filled line cache, the `.inc` filter switched on), afterwards it holds a NEW
@@ -412,7 +432,7 @@ theorem parse_is_read_then_walk (s : S) (f : Fmt) (t : Array Nat) :
   have hheap : (doRead s f t).g.heap[s.g.heap.length]? = some { contents := t } := by simp [doRead]
   have hw : ∀ fl : Bool, walkFl f t (readFl f fl) = (walk f t, incFinal f t fl) := by
     intro fl
-    cases f <;> first | rfl | (simp only [walkFl, readFl, incFinal]; rw [← incWalk_fresh t])
+    cases f <;> first | rfl | (simp only [walkFl, incFinal]; rw [← incWalk_fresh t])
   simp only [HistM.step, doRewalk, hpc, hheap]
   have hfl : (doRead s f t).incFlag = readFl f s.incFlag := rfl
   rw [hfl, hw s.incFlag]
